@@ -274,6 +274,8 @@ var StatePool = []string{
 	"2dx", "xd6", "dx", "x a 10", "2d", "d", "b", "p", "f", "2a10", "2c10", "y = x; y", "[x, x]", "{'a': x}", "x = x", "x = [x]", "1 +", "x = (", "1/0", "x = 1; 1/0", "[1,2,3][9]", "while x { x = 0 }", "if x { 1 } else { 2 }",
 	"^stx:1", "^stx+1", "^st&x=x",
 	"y = [1]; y.push(y); x == y", "y = {}; y.k = y; x == y", "x == x", "x != [1]", "y = {'k': x}; x == y", "x = {}; x.__proto__ = x; x.zz", "x.zz", "x.zz()", "y = {'__proto__': x}; x.__proto__ = y; y.zz", "y = {'__proto__': x}; y.zz",
+	"1 + 2 + 3 + 4 + 2d", "x = [1, 2, 3]; x[0] + x[1] + d优势 + 技能", "(", "'", "`{",
+	"x = {}; y = {'__proto__': x}; x.__proto__ = {'__proto__': x}; z = {'__proto__': y}; z.nope", "y = {}; z = {'__proto__': y}; y.__proto__ = z; x = {'__proto__': {'__proto__': z}}; x.nope", "x.nope", "x.nope()",
 	"x = {'__proto__': {'__proto__': {'a': 1}}}; x.a", "toStr(x)", "[x] == [x]", "x = [x, x]; x == x", "i = 0; while i < 3 { func gg() { break }; i = i + 1 }", "while x { func gg() { continue }; x = 0 }", "func gg() { while 1 { func hh() { break }; break } }; gg()",
 }
 
